@@ -47,8 +47,14 @@ MANIFEST = {
             "the described features / submodules with lys_feature_value over all features and the includes of the context. "
             "Every generated module exports a grouping whose leaves depend on its features and that wraps the groupings of its "
             "imports, so compiled trees depend on features reached through import-only modules; yl-variants also changes features "
-            "AFTER the loads (lys_set_implemented on / off / on-then-off) before describing and rebuilding.",
-    "note": "Not modelled: compilation, deviations, submodule entries, datastore list, search directories, "
+            "AFTER the loads (lys_set_implemented on / off / on-then-off) before describing and rebuilding. The description model "
+            "also holds the submodule entries (name, revision; C19_description_lists_closure_submodules: every submodule of the "
+            "include closure exactly once) and the deviation leaf-list (C19_description_deviation_list: exactly the implemented "
+            "modules that deviate the module); loading implements augment / deviation targets (implement_targets), tied by the "
+            "ylrt correspondence; the round-trip theorem covers augment / deviation statements (targets implemented in the "
+            "original); C19_describe_rebuild_describe: describe o rebuild o describe = describe on the modelled part (same "
+            "import-only entries, module entries equal with the system-ordered deviation list as a set).",
+    "note": "Not modelled: compilation, location leaves, datastore list, search directories, "
             "LY_CTX_ALL_IMPLEMENTED/REF_IMPLEMENTED, the revision-less import logic beyond the unambiguous case, the exact "
             "number of counter events per operation. Known findings: yl-hash-concat, yl-import-only-rev, yl-augment-order; fixed: "
             "yl-sub-include-skipped (272016c), yl-hash-fi "
